@@ -36,6 +36,7 @@ import (
 	"github.com/notaryproject/notation-go/verifier"
 	"github.com/notaryproject/notation-go/verifier/trustpolicy"
 	"github.com/notaryproject/notation-go/verifier/truststore"
+	pluginfw "github.com/notaryproject/notation-plugin-framework-go/plugin"
 	"github.com/opencontainers/go-digest"
 	ocispec "github.com/opencontainers/image-spec/specs-go/v1"
 )
@@ -154,12 +155,21 @@ type storeDesc struct {
 	Nil   bool    `json:"nil_slice,omitempty"` // the store answers (nil, nil)
 }
 
+// pluginDesc: the signature names a verification plugin (critical extended attributes); the
+// installed plugin reports Caps (in this order) and answers the verdicts below
+type pluginDesc struct {
+	Caps  []string `json:"capabilities"` // "TI", "Rev", "Gen" (a non-verification capability)
+	TIOK  bool     `json:"trusted_identity_verdict"`
+	RevOK bool     `json:"revocation_verdict"`
+}
+
 type stmtDesc struct {
 	Name    string   `json:"name"`
 	Scopes  []string `json:"scopes"`
 	Stores  []string `json:"stores"`
 	Level   string   `json:"level"`
 	AuthLog bool     `json:"auth_log,omitempty"`
+	RevOn   bool     `json:"revocation_not_skipped,omitempty"` // only with a plugin that has the revocation capability
 	TSOpt   string   `json:"ts_opt,omitempty"`
 	Global  bool     `json:"global_policy,omitempty"` // blob statements only
 }
@@ -180,6 +190,7 @@ type c03Case struct {
 	Stmts      []stmtDesc  `json:"statements"`
 	Stores     []storeDesc `json:"stores"`
 	Real       bool        `json:"real_store,omitempty"`
+	Plugin     *pluginDesc `json:"verification_plugin,omitempty"`
 	Mutate     []string    `json:"mutated_stores,omitempty"` // replaces the stores of statement "sel" after validation
 	Labels     []string    `json:"labels,omitempty"`
 	ChainID    []int64     `json:"chain_ids"`
@@ -191,6 +202,8 @@ type c03Case struct {
 }
 
 var c03Types = []string{"ca", "signingAuthority", "tsa"}
+
+const c03PluginName = "c03-verification-plugin"
 
 var c03QuotedRe = regexp.MustCompile(`"(?:[^"\\]|\\.)*"`)
 
@@ -206,13 +219,13 @@ func allQuoted(msg string) []string {
 
 func runC03(a *Args) error {
 	rng := NewRng(a.Seed)
-	prelude := "From NV Require Import Base C03_Model.\nOpen Scope string_scope.\n"
-	w := NewCaseWriter(a, "C03", prelude, "case", "run")
-	w.Rule = "placements of the signing chain's root/intermediate/leaf, of twin certificates (same subject and key, other serial), of unrelated and TSA certificates into named stores of the types ca/signingAuthority/tsa; statement trust-store lists with duplicates, several types, unknown and failing stores; 1-4 statements with exact/wildcard/foreign/case-variant scopes; both schemes, both envelope formats, with and without a timestamp countersignature (in-process TSA). Families: exhaustive (all lists of length<=2 (thorough <=3) over {ca:a,signingAuthority:a,tsa:a,ca:b} x 5 root placements x 2 schemes x 4 failure patterns); random scenarios (right store / wrong type / unlisted / other statement / tsa / load error); real truststore.NewX509TrustStore on a directory (fs asked from the store itself); malformed lists injected after validation (correspondence only); rare-names (store names differing by case only, leading dots, type words as names; empty vs nil slice vs nil element answers); positions (the trusted store at every list position x 13 kinds of odd element at every other position, matched chain certificate and its place inside the store rotating); statement-positions (all 24 orders of exact/wildcard/foreign/case-variant statements x which one lists the trusted store x 7 references incl. upper-case host and port); history (ONE verifier and ONE store object, 2-4 Verify calls with the store content, scheme, chain or repository changed in between; every operator after every start state in both directions plus random sequences; each step its own case); namespaces (one verifier holding an OCI and a blob document whose statements share names, Verify and VerifyBlob alternating); blob-selection (three blob statements named P / p / P2 in every order, the trusted store listed by one of them, the global flag on none or each, called by each name, by a name nobody has, and without a name). Each case runs the real verifier.Verify or VerifyBlob. non-trivial = an authenticity result exists and some chain certificate sits in some store; distinct = distinct canonical inputs"
+	prelude := "From NV Require Import Base C03_Model C03_PluginModel.\nOpen Scope string_scope.\n"
+	w := NewCaseWriter(a, "C03", prelude, "xcase", "xrun")
+	w.Rule = "placements of the signing chain's root/intermediate/leaf, of twin certificates (same subject and key, other serial), of unrelated and TSA certificates into named stores of the types ca/signingAuthority/tsa; statement trust-store lists with duplicates, several types, unknown and failing stores; 1-4 statements with exact/wildcard/foreign/case-variant scopes; both schemes, both envelope formats, with and without a timestamp countersignature (in-process TSA). Families: exhaustive (all lists of length<=2 (thorough <=3) over {ca:a,signingAuthority:a,tsa:a,ca:b} x 5 root placements x 2 schemes x 4 failure patterns); random scenarios (right store / wrong type / unlisted / other statement / tsa / load error); real truststore.NewX509TrustStore on a directory (fs asked from the store itself); malformed lists injected after validation (correspondence only); rare-names (store names differing by case only, leading dots, type words as names; empty vs nil slice vs nil element answers); positions (the trusted store at every list position x 13 kinds of odd element at every other position, matched chain certificate and its place inside the store rotating); statement-positions (all 24 orders of exact/wildcard/foreign/case-variant statements x which one lists the trusted store x 7 references incl. upper-case host and port); history (ONE verifier and ONE store object, 2-4 Verify calls with the store content, scheme, chain or repository changed in between; every operator after every start state in both directions plus random sequences; each step its own case); namespaces (one verifier holding an OCI and a blob document whose statements share names, Verify and VerifyBlob alternating); blob-selection (three blob statements named P / p / P2 in every order, the trusted store listed by one of them, the global flag on none or each, called by each name, by a name nobody has, and without a name); plugin (the signature names a verification plugin: capabilities none / non-verification / TI / Rev / TI+Rev / Rev+TI x trusted-identity verdict x level strict / audit / strict with authenticity=log / permissive x trust situation anchored / not anchored / other-type store only / unloadable listed store with the good store at every position x both schemes; observed: the authenticity result the outcome FINALLY reports). Each case runs the real verifier.Verify or VerifyBlob. non-trivial = an authenticity result exists and some chain certificate sits in some store; distinct = distinct canonical inputs"
 	w.Assumptions = []string{
 		"certificate identity is x509.Certificate.Equal (ids assigned by Equal); notation-core-go VerifyAuthenticity is an input-independent dependency (some chain certificate Equal some trust certificate)",
 		"the trust store is a function of (type, name) during one Verify; for the real directory store its answers are obtained by direct calls before Verify",
-		"i_token is asked from tspclient-go (ParseSignedToken, Info, Validate) and chain expiry from the certificates; trusted identities are '*', signatures are intact and unexpired, no verification plugin",
+		"i_token is asked from tspclient-go (ParseSignedToken, Info, Validate) and chain expiry from the certificates; trusted identities are '*', signatures are intact and unexpired; a verification plugin is named only in family plugin (installed, valid version, answers every capability asked; no tsa store listed and a live chain, so that expiry and timestamp steps pass - checked on the outcome)",
 		"VerifyBlob cases are rendered as scoped statements (scope = statement name, the global statement = \"*\" when no policy is named, repository = policy name); coq/props/C03_WithC08.v proves that rendering selection-preserving w.r.t. C08's model of BlobDocument.GetApplicableTrustPolicy / GetGlobalTrustPolicy when no blob statement is named \"*\" or \"\" (the generator never does)",
 		"an unrecognized signing scheme cannot reach loadX509TrustStores through Verify (notation-core-go rejects the envelope); that branch is covered by the theorem only",
 	}
@@ -255,6 +268,21 @@ func runC03(a *Args) error {
 				}
 				key := f + "|" + string(sc) + "|"
 				e.env[key+"0"] = b
+				if name == "n3" || name == "n2" {
+					// the same signature naming a verification plugin (no countersignature)
+					pb, err := SignEnvelope(EnvSpec{Format: f, Chain: e.chain, Payload: PayloadFor(desc), Scheme: sc, SigningTime: signAt,
+						ExtAttrs: []signature.Attribute{
+							{Key: "io.cncf.notary.verificationPlugin", Critical: true, Value: c03PluginName},
+							{Key: "io.cncf.notary.verificationPluginMinVersion", Critical: true, Value: "1.0.0"}}})
+					if err != nil {
+						panic(err)
+					}
+					if _, err := CoreVerify(f, pb); err != nil {
+						panic(fmt.Sprintf("c03: core rejects fresh plugin envelope: %v", err))
+					}
+					e.env[key+"0p"] = pb
+					e.tokOK[key+"0p"] = false
+				}
 				sig := content.SignerInfo.Signature
 				for v, msg := range map[int][]byte{1: sig, 2: append([]byte("not the signature"), sig...)} {
 					tok := makeToken(msg, signAt.Add(time.Minute), tsaLeaf, []*x509.Certificate{tsaRoot.C})
@@ -366,6 +394,7 @@ func runC03(a *Args) error {
 		rec    *recStore
 		inner  truststore.X509TrustStore
 		mock   *MockStore
+		mgr    *MockManager
 		selIdx int
 		doc    *trustpolicy.OCIDocument
 		bdoc   *trustpolicy.BlobDocument
@@ -415,7 +444,10 @@ func runC03(a *Args) error {
 		for i, s := range c.Stmts {
 			var override map[trustpolicy.ValidationType]trustpolicy.ValidationAction
 			if s.Level != "skip" {
-				override = map[trustpolicy.ValidationType]trustpolicy.ValidationAction{trustpolicy.TypeRevocation: trustpolicy.ActionSkip}
+				override = map[trustpolicy.ValidationType]trustpolicy.ValidationAction{}
+				if !s.RevOn {
+					override[trustpolicy.TypeRevocation] = trustpolicy.ActionSkip
+				}
 				if s.AuthLog {
 					override[trustpolicy.TypeAuthenticity] = trustpolicy.ActionLog
 				}
@@ -444,7 +476,8 @@ func runC03(a *Args) error {
 					TrustStores:           append([]string(nil), s.Stores...), TrustedIdentities: []string{"*"}})
 			}
 		}
-		v, err := verifier.NewVerifierWithOptions(ss.rec, verifier.VerifierOptions{OCITrustPolicy: doc, BlobTrustPolicy: bdoc})
+		ss.mgr = &MockManager{Plugins: map[string]*MockPlugin{}}
+		v, err := verifier.NewVerifierWithOptions(ss.rec, verifier.VerifierOptions{OCITrustPolicy: doc, BlobTrustPolicy: bdoc, PluginManager: ss.mgr})
 		if err != nil {
 			panic(fmt.Sprintf("c03: case %d: generated policy rejected: %v", my, err))
 		}
@@ -532,6 +565,35 @@ func runC03(a *Args) error {
 			c.Repo = TestScope
 		}
 		ekey := c.Format + "|" + string(scheme) + "|" + strconv.Itoa(c.TS)
+		var plug *MockPlugin
+		if opt == nil {
+			ss.mgr.Plugins = map[string]*MockPlugin{}
+		}
+		if c.Plugin != nil {
+			if c.TS != 0 || e.env[ekey+"p"] == nil || opt != nil {
+				panic("c03: plugin cases use the envelopes without countersignature of chains n3 / n2, sequentially")
+			}
+			ekey += "p"
+			var caps []pluginfw.Capability
+			vr := map[pluginfw.Capability]*pluginfw.VerificationResult{}
+			for _, pc := range c.Plugin.Caps {
+				switch pc {
+				case "TI":
+					caps = append(caps, pluginfw.CapabilityTrustedIdentityVerifier)
+					vr[pluginfw.CapabilityTrustedIdentityVerifier] = &pluginfw.VerificationResult{Success: c.Plugin.TIOK, Reason: "mock identity verdict"}
+				case "Rev":
+					caps = append(caps, pluginfw.CapabilityRevocationCheckVerifier)
+					vr[pluginfw.CapabilityRevocationCheckVerifier] = &pluginfw.VerificationResult{Success: c.Plugin.RevOK, Reason: "mock revocation verdict"}
+				default:
+					caps = append(caps, pluginfw.CapabilitySignatureGenerator)
+				}
+			}
+			plug = &MockPlugin{
+				Meta: &pluginfw.GetMetadataResponse{Name: c03PluginName, Version: "1.2.0", Capabilities: caps, Description: "d", URL: "u", SupportedContractVersions: []string{"1.0"}},
+				Resp: &pluginfw.VerifySignatureResponse{VerificationResults: vr},
+			}
+			ss.mgr.Plugins[c03PluginName] = plug
+		}
 		inner, rec, selIdx, v := ss.inner, ss.rec, ss.selIdx, ss.v
 		vctx := context.Background()
 		if opt == nil {
@@ -660,6 +722,8 @@ func runC03(a *Args) error {
 				c.Auth, authTerm = "duplicated", "(Some AOtherErr)"
 			case r.Error == nil:
 				c.Auth, authTerm = "APass", "(Some APass)"
+			case c.Plugin != nil && strings.Contains(r.Error.Error(), "trusted identify verification by plugin"):
+				c.Auth, authTerm = "FPluginIdentity", "FPluginIdentity"
 			case errKey[r.Error.Error()].Type != "" && errKey[r.Error.Error()].Type != "?":
 				k := errKey[r.Error.Error()]
 				c.Auth, authTerm = "ALoad:"+string(k.Type)+":"+k.Name, CSome(CApp("ALoad", CStr(string(k.Type)), CStr(k.Name)))
@@ -733,9 +797,56 @@ func runC03(a *Args) error {
 		for i, x := range e.ids {
 			chainTerms[i] = CN(x)
 		}
-		in := CApp("mk_input", sch, CList(stmtTerms), CStr(repoOfEntry), CList(fsTerms), CList(chainTerms), CBool(e.tokOK[ekey]))
-		obs := CApp("mk_obs", authTerm, CList(callTerms), CBool(c.Stop))
-		term := CApp("mk_case", CN(my), in, obs)
+		// the extended observation: the authenticity result the outcome FINALLY reports
+		switch {
+		case authTerm == "None":
+		case authTerm == "FPluginIdentity":
+			authTerm = "(Some FPluginIdentity)"
+		default:
+			authTerm = "(Some (FStore " + strings.TrimSuffix(strings.TrimPrefix(authTerm, "(Some "), ")") + "))"
+		}
+		plugTerm := "None"
+		if c.Plugin != nil {
+			var capTerms []string
+			for _, pc := range c.Plugin.Caps {
+				switch pc {
+				case "TI":
+					capTerms = append(capTerms, "CTI")
+				case "Rev":
+					capTerms = append(capTerms, "CRev")
+				}
+			}
+			// action of revocation in the applicable statement's level (skip unless RevOn)
+			revAct := "SkipLevel"
+			var appl *stmtDesc
+			for i := range stmtsOfEntry {
+				s := &stmtsOfEntry[i]
+				for _, sc := range s.Scopes {
+					if sc == repoOfEntry || (sc == "*" && appl == nil) {
+						appl = s
+					}
+				}
+			}
+			if appl != nil && appl.RevOn {
+				revAct = map[string]string{"strict": "Enforce", "permissive": "Log", "audit": "Log"}[appl.Level]
+			}
+			plugTerm = CSome(CApp("mk_plugin", CList(capTerms), CBool(c.Plugin.TIOK), CBool(c.Plugin.RevOK), revAct))
+			// the assumptions of the plugin model, checked on the outcome: nothing between the
+			// authenticity step and the plugin ended the verification
+			if outcome != nil {
+				for _, r := range outcome.VerificationResults {
+					if r != nil && (r.Type == trustpolicy.TypeExpiry || r.Type == trustpolicy.TypeAuthenticTimestamp) && r.Error != nil {
+						panic(fmt.Sprintf("c03: plugin case %d: the %s step failed (%v): outside the plugin model", my, r.Type, r.Error))
+					}
+				}
+			}
+			w.Count("plugin_caps", strings.Join(c.Plugin.Caps, "+"))
+			w.Count("plugin_ti_verdict", fmt.Sprint(c.Plugin.TIOK))
+			w.Count("plugin_executed", fmt.Sprint(len(plug.VerifyReq) > 0))
+		}
+		in := CApp("mk_xinput", CApp("mk_input", sch, CList(stmtTerms), CStr(repoOfEntry), CList(fsTerms), CList(chainTerms), CBool(e.tokOK[ekey])), plugTerm)
+		obs := CApp("mk_xobs", authTerm, CList(callTerms), CBool(c.Stop))
+		term := CApp("mk_xcase", CN(my), in, obs)
 		placed := c.Real
 		for _, s := range c.Stores {
 			for _, x := range s.Certs {
@@ -1792,6 +1903,86 @@ func runC03(a *Args) error {
 		}
 	}
 
+	// ---------- family 8b: the signature names a verification plugin ----------
+	// capabilities {none, a non-verification one, TI, Rev, TI+Rev, Rev+TI} x trusted-identity verdict x
+	// level {strict, audit, strict with authenticity=log, permissive} x trust situation {anchored, not
+	// anchored, only a store of the other type, an unloadable listed store of the required type with the
+	// good store at every list position} x both schemes. The observation is the authenticity result the
+	// outcome FINALLY reports: a plugin verdict may add an identity failure, never clear a store failure.
+	{
+		type situation struct {
+			label string
+			list  func(req, oth string) []string
+		}
+		sits := []situation{
+			{"anchored", func(req, oth string) []string { return []string{oth + ":g", req + ":g"} }},
+			{"not-anchored", func(req, oth string) []string { return []string{req + ":u", oth + ":g"} }},
+			{"othertype-only", func(req, oth string) []string { return []string{oth + ":g", oth + ":h"} }},
+		}
+		for p := 0; p < 3; p++ {
+			for q := 0; q < 3; q++ {
+				if p == q {
+					continue
+				}
+				p, q := p, q
+				sits = append(sits, situation{fmt.Sprintf("unloadable@%d-good@%d", q, p), func(req, oth string) []string {
+					l := []string{req + ":u", req + ":u", req + ":u"}
+					l[p], l[q] = req+":g", req+":bad"
+					l[3-p-q] = oth + ":g"
+					return l
+				}})
+			}
+		}
+		capSets := [][]string{{}, {"Gen"}, {"TI"}, {"Rev"}, {"TI", "Rev"}, {"Rev", "TI"}}
+		type lvl struct {
+			level   string
+			authLog bool
+		}
+		lvls := []lvl{{"strict", false}, {"audit", false}, {"strict", true}, {"permissive", false}}
+		plk := 0
+		for _, sa := range []bool{false, true} {
+			for _, sit := range sits {
+				for _, caps := range capSets {
+					for _, tiOK := range []bool{true, false} {
+						for _, lv := range lvls {
+							plk++
+							chainName := []string{"n3", "n2"}[plk%2]
+							e := envs[chainName]
+							root := e.ids[len(e.ids)-1]
+							req, oth := "ca", "signingAuthority"
+							if sa {
+								req, oth = oth, req
+							}
+							hasRev := false
+							for _, x := range caps {
+								hasRev = hasRev || x == "Rev"
+							}
+							sel := stmtDesc{Name: "sel", Scopes: []string{TestScope}, Stores: sit.list(req, oth), Level: lv.level, AuthLog: lv.authLog,
+								RevOn: hasRev && plk%4 != 0}
+							// the wildcard statement lists the good store of the required type: never applicable here
+							other := stmtDesc{Name: "other", Scopes: []string{"*"}, Stores: []string{req + ":g"}, Level: "strict"}
+							stmts := []stmtDesc{sel, other}
+							if plk%3 == 0 {
+								stmts = []stmtDesc{other, sel}
+							}
+							c := &c03Case{Family: "plugin", Chain: chainName, Format: formats[plk%2], SA: sa, TS: 0, Stmts: stmts,
+								Plugin: &pluginDesc{Caps: caps, TIOK: tiOK, RevOK: plk%5 != 0},
+								Labels: []string{"plugin:" + sit.label, "plugin-level:" + lv.level + map[bool]string{true: "+authenticity=log", false: ""}[lv.authLog]},
+								Stores: []storeDesc{
+									{Type: req, Name: "g", Certs: []int64{e.twins[0], root, idUnrelRoot}},
+									{Type: oth, Name: "g", Certs: []int64{root}},
+									{Type: oth, Name: "h", Certs: []int64{e.ids[0], root}},
+									{Type: req, Name: "u", Certs: []int64{idUnrelRoot, e.twins[0]}},
+									{Type: req, Name: "bad", Certs: []int64{root}, Fail: true},
+								}}
+							runCase(c)
+						}
+					}
+				}
+			}
+		}
+	}
+
 	// ---------- family 9: concurrent use of ONE verifier (child process; last family: ids are stable before it) ----------
 	firstConc := id
 	if a.Only < 0 || a.Only >= firstConc {
@@ -1832,7 +2023,7 @@ func runC03(a *Args) error {
 				continue
 			}
 			if r.In != "" {
-				w.Add(my, CApp("mk_case", CN(my), r.In, r.Obs), r.Case, r.In+r.Obs, r.Nontriv)
+				w.Add(my, CApp("mk_xcase", CN(my), r.In, r.Obs), r.Case, r.In+r.Obs, r.Nontriv)
 				w.Count("family", "concurrent")
 				w.Count("obs_auth", strings.SplitN(r.Case.Auth, ":", 2)[0])
 			}
